@@ -121,6 +121,27 @@ HARNESSES.append(
          backends=["default", "kissat"],
          bound="2 groups of 8 inodes, every bit of inode_used_map / inode_dir_map / fs->inode_map, every descriptor byte, "
                "s_free_inodes_count and fs->flags symbolic; with and without group-descriptor checksums (INODE_UNINIT honoured); e2fsck -n"))
+P4_UW = ["main.%d:16" % i for i in range(12)] + ["fix_problem.0:15", "vf_bit.0:15", "ext2fs_unmark_generic_bmap.0:15", "vf_reset.0:15", "e2fsck_pass4.0:15"]
+HARNESSES.append(
+    dict(name="p4links", src="p4links.c",
+         funcs=["e2fsck_pass4", "disconnect_inode"],
+         configs=[{"ANSWER": 0}],
+         unwind=4, unwindset=P4_UW,
+         backends=["default", "kissat"],
+         bound="13 inodes (2 and 11..13 checked), membership in the four pass-1 maps, both 32-bit counters, i_mode / i_links_count / i_blocks / i_flags "
+               "of every inode, dir_nlink and fs->flags symbolic; 128-byte inodes, no EA-inode table; e2fsck -n (read-only)"))
+P3_UW = ["main.%d:17" % i for i in range(24)] + ["fix_problem.0:7", "vf_bit.0:17", "ext2fs_mark_generic_bmap.0:17", "ext2fs_clear_inode_bitmap.0:17",
+         "e2fsck_dir_info_get_parent.0:7", "e2fsck_dir_info_get_dotdot.0:7", "e2fsck_reconnect_file.0:7", "fix_dotdot.0:7",
+         "ref_chain.0:7", "ref_chain.1:7", "ref_chain.2:8", "vf_run_pass3.0:17", "vf_run_pass3.1:7", "check_directory.0:8"]
+HARNESSES.append(
+    dict(name="p3dirs", src="p3dirs.c",
+         funcs=["check_directory"],
+         cut_statics={"e2fsck/pass3.c": ["e2fsck_reconnect_file", "fix_dotdot"]},
+         configs=[{"ANSWER": 0}],
+         unwind=4, unwindset=P3_UW,
+         backends=["default", "kissat"],
+         bound="table of 6 directories (root, lost+found, 4 more): parent (none or any table directory), '..' (any 32-bit value) and inode_dir_map "
+               "membership symbolic for each; every parent function on 6 nodes, loops included; e2fsck -n"))
 MANIFEST = {
     "text": "Kernel-level slice (partial). Detector completeness against an independent format predicate, bounded-exhaustive: every extent header "
             "violating (magic, entries <= max, max entries fit the node) is rejected by ext2fs_extent_header_verify for every node size; every "
